@@ -6,7 +6,8 @@ from __future__ import annotations
 import random
 
 from .. import tlc
-from ..absgrammar import (LEAVES_SMALL, Gen, all_texts, call, calls, chars_of, enum_exprs, grammar, make_cfg, pat, rule, seq,
+from ..absgrammar import (LEAVES_SMALL, Gen, all_texts, call, calls, chars_of, cut, enum_exprs, grammar, make_cfg, named, opt, pat, plus,
+                          rule, seq, star,
                           alt, tok, to_ebnf)
 from ..common import Check
 from ..pegcheck import Jobs, compare, default_case, run_impl, run_oracle, spec_outcome
@@ -88,6 +89,27 @@ def in_override_list_scope(g):
     return False
 
 
+def expansions():
+    """Grammar constructs that docs/syntax.rst defines by expansion: `>rule` (the right-hand side of the rule at this point), `x < base`
+    (the base rule's right-hand side followed by the new one), `@override` (a later definition replaces the earlier one).
+    -> [(source text, the expanded abstract grammar PegSem evaluates)]"""
+    from ..absgrammar import ovr, ovrlist
+    a, b, c = tok('a'), tok('b'), tok('c')
+    out = []
+    inc = seq(named('x', a), named('y', opt(b)))
+    out.append(("inc = x:'a' y:['b'] ;\ns = >inc 'c' ;\n", grammar(rule('inc', inc), rule('s', seq(inc, c)))))
+    out.append(("inc = 'a' | 'b' 'b' ;\ns = {>inc}+ 'c' ;\n", grammar(rule('inc', alt(a, seq(b, b))), rule('s', seq(plus(alt(a, seq(b, b))), c)))))
+    out.append(("inc = 'a' ~ 'b' ;\ns = >inc 'c' | 'a' ;\n", grammar(rule('inc', seq(a, cut(), b)), rule('s', alt(seq(seq(a, cut(), b), c), a)))))
+    out.append(("inc = @:'a' ;\ns = 'b' >inc 'c' ;\n", grammar(rule('inc', ovr(a)), rule('s', seq(b, ovr(a), c)))))
+    out.append(("base = x:'a' ;\ns < base = y:'b' ;\n", grammar(rule('base', named('x', a)), rule('s', seq(named('x', a), named('y', b))))))
+    out.append(("base = 'a' | 'c' ;\ns < base = {'b'} ;\n", grammar(rule('base', alt(a, c)), rule('s', seq(alt(a, c), star(b))))))
+    out.append(("base = 'a' ['b'] ;\nmid < base = 'c' ;\ns = mid | base ;\n",
+                grammar(rule('base', seq(a, opt(b))), rule('mid', seq(seq(a, opt(b)), c)), rule('s', alt(call('mid'), call('base'))))))
+    out.append(("s = y 'c' ;\ny = 'a' ;\n@override\ny = @:'b' {@:'b'} ;\n", grammar(rule('s', seq(call('y'), c)), rule('y', seq(ovr(b), star(ovr(b)))))))
+    out.append(("y = 'a' ;\n@override\ny = 'b' | 'a' 'a' ;\ns = {y} ;\n", grammar(rule('y', alt(b, seq(a, a))), rule('s', star(call('y'))))))
+    return out
+
+
 def run(tier):
     ck = Check('C01', tier)
     seed = ck.seed
@@ -110,6 +132,11 @@ def run(tier):
             jobs.add(g, make_cfg(chars_of(g, ts)), ts, start=st)
             cases.append(default_case(to_ebnf(g), ts, start=st))
             allg.append(g)
+    ctexts = all_texts(['a', 'b', 'c', ' '], 3) + [list(t) for t in ['a b c', 'abbc', 'a c', 'bbbc', 'aabb', 'b a c', 'a bc']]
+    for src, g in expansions():
+        jobs.add(g, make_cfg(chars_of(g, ctexts)), ctexts, start='s')
+        cases.append(default_case(src, ctexts, start='s'))
+        allg.append(g)
     r, spec = run_oracle(jobs, timeout=3000)
     ck.add_tlc(r, 'PegSemBatch')
     impl = run_impl(cases)
